@@ -233,6 +233,37 @@ PLANS = {
 }
 
 
+# multi-solve histories on ONE DMRG object.  A call may carry "seq":
+#   "LAST"  start in the direction of the last sweep actually performed, then alternate
+#   "OPP"   start against the direction of the last sweep performed, then alternate
+#   "REV"   the cell's sequence reversed
+#   or an explicit string; absent = the cell's sequence
+_CONV = dict(tol=1e-6, max_sweeps=12)  # normally ends through the convergence test, not max_sweeps
+HISTORY_PLANS = {
+    "conv,last1": [_CONV, dict(tol=1e-12, max_sweeps=1, seq="LAST")],
+    "conv,last6": [_CONV, dict(tol=1e-12, max_sweeps=6, seq="LAST")],
+    "conv,same3": [_CONV, dict(tol=1e-12, max_sweeps=3)],
+    "conv,opp2": [_CONV, dict(tol=1e-12, max_sweeps=2, seq="OPP")],
+    "conv,rev3": [_CONV, dict(tol=1e-12, max_sweeps=3, seq="REV")],
+    "conv,conv,last1": [_CONV, dict(tol=1e-9, max_sweeps=12), dict(tol=1e-13, max_sweeps=1, seq="LAST")],
+    "conv,exactcap-last2": [_CONV, dict(tol=1e-12, max_sweeps=2, seq="LAST", bond_dims="EXACT", cutoffs=0.0)],
+    "S1,last1,last1": [dict(tol=1e-10, max_sweeps=1), dict(tol=1e-10, max_sweeps=1, seq="LAST"), dict(tol=1e-10, max_sweeps=1, seq="LAST")],
+    "S3,opp1,last2": [dict(tol=1e-10, max_sweeps=3), dict(tol=1e-10, max_sweeps=1, seq="OPP"), dict(tol=1e-10, max_sweeps=2, seq="LAST")],
+}
+
+
+def plan_calls(name):
+    """list of solve-call dicts for a plan name; 'steps:RLLR' = one
+    solve(max_sweeps=1, sweep_sequence=c) per character"""
+    if name in PLANS:
+        return PLANS[name]
+    if name in HISTORY_PLANS:
+        return HISTORY_PLANS[name]
+    if name.startswith("steps:"):
+        return [dict(tol=1e-10, max_sweeps=1, seq=c) for c in name[len("steps:") :]]
+    raise KeyError(name)
+
+
 class CaseTimeout(BaseException):
     pass
 
@@ -415,15 +446,25 @@ def _drive(cell):
     done_rec = 0
     n_sw_done = 0
 
-    for call_no, call in enumerate(PLANS[cfg["plan"]]):
+    last_dir = None  # direction of the last sweep actually performed
+    for call_no, call in enumerate(plan_calls(cfg["plan"])):
         skw = dict(call)
+        seq_call = skw.pop("seq", None)
+        if seq_call in ("LAST", "OPP"):
+            first = (last_dir or seq_dflt[0]) if seq_call == "LAST" else {"R": "L", "L": "R"}[last_dir or seq_dflt[0]]
+            seq_call = first + {"R": "L", "L": "R"}[first]
+        elif seq_call == "REV":
+            seq_call = seq_dflt[::-1]
         if "bond_dims" in skw:
             sched_b, pos_b = ([exact_cap] if skw["bond_dims"] == "EXACT" else list(skw["bond_dims"])), 0
             skw["bond_dims"] = list(sched_b)
         if "cutoffs" in skw:
             sched_c, pos_c = [float(skw["cutoffs"])], 0
-        if seq is not None:
+        if seq_call is not None:
+            skw["sweep_sequence"] = seq_call
+        elif seq is not None:
             skw["sweep_sequence"] = seq
+        seq_eff = seq_call or seq_dflt  # the sequence this call promises (restarts in every call)
         try:
             conv = d.solve(**skw)
         except CaseTimeout:
@@ -432,12 +473,13 @@ def _drive(cell):
             if cyclic:
                 return table.rejected("periodic:solve:bsz=%d:L=%d:%s" % (bsz, L, type(ex).__name__))
             # which sweep were we in?  recompute the structural flag first
-            _flag_uncanon_from_records(flags, mon, done_rec, n_upd_sweep, bsz, seq_dflt, sched_b, pos_b, cur_bonds)
+            _flag_uncanon_from_records(flags, mon, done_rec, n_upd_sweep, bsz, seq_eff, sched_b, pos_b, cur_bonds)
             return crash("solve", ex)
         stats["conv"].append(bool(conv))
         n_sw = len(d.energies) - n_sw_done
         n_sw_done = len(d.energies)
-        seq_eff = seq_dflt
+        if n_sw:
+            last_dir = seq_eff[(n_sw - 1) % len(seq_eff)]
 
         new = mon.rec[done_rec:]
         done_rec = len(mon.rec)
@@ -907,6 +949,43 @@ def plan_tables(tier, opts):
         )
     )
 
+    # ---- H: multi-solve histories on one DMRG object ---------------------- #
+    # first call normally ends through the convergence test; later calls start
+    # with / against the direction of the last sweep performed, reverse the
+    # sequence, override caps, or run single sweeps
+    hamsH = [
+        _spin(["XX", "YY", "fZ"], 1, 4),
+        _spin(["XX", "DM", "fX"], 1, 5),
+        _spin(["XX", "ZZ", "fX"], 2, 3),
+    ]
+    if thorough:
+        hamsH += [
+            _spin(["XX", "YY", "ZZ"], 1, 6),
+            _spin(["ZZ", "XZ", "fX"], 1, 4, shift="pI"),
+            {"kind": "gen-cplx", "S2": 1, "L": 4},
+            {"kind": "sitedep", "name": "sd-real", "S2": 1, "L": 5},
+            _spin(["YY", "DM", "fZ"], 2, 4),
+        ]
+    plansH = list(HISTORY_PLANS) + ["steps:RLLR", "steps:LRRL", "steps:RRLL"] + (["steps:LLRRL", "steps:RLRLL"] if thorough else [])
+    axH = dict(
+        bsz=[1, 2],
+        which=["SA", "LA"],
+        bonds=[[2], [2, 4], ["EXACT"]],
+        cutoffs=[[0.0], [1e-10]] if thorough else [[0.0]],
+        seq=["R", "L", "RL", "LR"] + (["RRL"] if thorough else []),
+        init=["default"],
+        plan=plansH,
+        eig=["numpy", "default"] if thorough else ["numpy"],
+    )
+    T.append(
+        (
+            "H:multi-solve histories",
+            _cells(hamsH, cfg_product(**axH)),
+            "%d Hamiltonians x bsz x which x bonds{[2],[2,4],[exact]} x cutoffs%r x cell sequence%r x init%r x eig%r x %d histories of solve() calls on one object %r (LAST/OPP = next call starts with/against the direction of the last sweep performed, REV = reversed sequence, steps = single-sweep calls); monitor and monotonicity run across the solve boundaries, returned state checked after every call"
+            % (len(hamsH), axH["cutoffs"], axH["seq"], axH["init"], axH["eig"], len(plansH), plansH),
+        )
+    )
+
     # ---- P: periodic, energy/state consistency only ----------------------- #
     hamsP = []
     for t in [["XX", "YY", "ZZ"], ["XX", "DM", "fY"], ["ZZ", "fX"]] + ([["XX", "XZ", "fZ"], ["YY", "DM"]] if thorough else []):
@@ -948,7 +1027,7 @@ def run(ctx):
         "L": "2..6 (open), 4..6 (periodic)" if thorough else "2..4 (open), 4..5 (periodic)",
         "phys_dim": "2..4" if thorough else "2..3",
         "hilbert_dim": "<= 243",
-        "solve_calls_per_cell": "<= 2",
+        "solve_calls_per_cell": "<= 5",
         "max_sweeps": "<= 10 per solve call",
     }
     for name, cells, desc in tables:
